@@ -20,10 +20,73 @@ CVC5BIN = shutil.which("cvc5") or "/usr/bin/cvc5"
 def to_smt2(ob):
     s = z3.Solver()
     for h in ob.hyps:
-        s.add(h)
-    s.add(z3.Not(ob.goal))
+        s.add(z3.simplify(h))
+    s.add(z3.simplify(z3.Not(ob.goal)))
     txt = s.to_smt2()
     return txt
+
+
+def has_quant(e):
+    seen = set()
+    stack = [e]
+    while stack:
+        x = stack.pop()
+        if x.get_id() in seen:
+            continue
+        seen.add(x.get_id())
+        if z3.is_quantifier(x):
+            return True
+        stack.extend(x.children())
+    return False
+
+
+def symbols(e, acc=None):
+    acc = set() if acc is None else acc
+    seen = set()
+    stack = [e]
+    while stack:
+        x = stack.pop()
+        if x.get_id() in seen:
+            continue
+        seen.add(x.get_id())
+        if z3.is_quantifier(x):
+            stack.append(x.body())
+            continue
+        if z3.is_app(x):
+            if x.decl().kind() == z3.Z3_OP_UNINTERPRETED:
+                acc.add(x.decl().name())
+            stack.extend(x.children())
+    return acc
+
+
+HEAPISH = ("H0!", "hv!", "al!", "lp!list", "lp!obj")
+
+
+def sliced_variants(ob):
+    """sub-sets of the hypotheses (always sound to drop hypotheses): tried when the full query is left open"""
+    out = []
+    qf = [h for h in ob.hyps if not has_quant(h)]
+    if len(qf) < len(ob.hyps):
+        out.append(("quantifier-free-hyps", qf))
+    gs = {n for n in symbols(ob.goal)}
+    rel = [h for h in ob.hyps if symbols(h) & gs]
+    if 0 < len(rel) < len(ob.hyps):
+        out.append(("hyps-sharing-a-symbol-with-goal", rel))
+    gs2 = set(gs)
+    for h in rel:
+        gs2 |= {n for n in symbols(h) if not n.startswith(HEAPISH)}
+    rel2 = [h for h in ob.hyps if symbols(h) & gs2]
+    if len(rel) < len(rel2) < len(ob.hyps):
+        out.append(("two-step-relevant-hyps", rel2))
+    return out
+
+
+def smt2_of(hyps, goal):
+    s = z3.Solver()
+    for h in hyps:
+        s.add(z3.simplify(h))
+    s.add(z3.simplify(z3.Not(goal)))
+    return s.to_smt2()
 
 
 def uses_strings(txt):
@@ -117,7 +180,8 @@ async def _run_proc(cmd, timeout):
     return out, time.time() - t0
 
 
-async def _solve_async(pairs, timeout, jobs, tmpdir):
+async def _solve_async(pairs, timeout, jobs, tmpdir, variants=None):
+    variants = variants or {}
     import asyncio
     sem = asyncio.Semaphore(jobs)
 
@@ -147,6 +211,20 @@ async def _solve_async(pairs, timeout, jobs, tmpdir):
                     ob.verdict, ob.solver, ob.model = "refuted", "cvc5-1.0.3", o2
                 else:
                     ob.verdict, ob.detail = "undecided", f"z3: {first[:80]} / cvc5: {f2[:80]}"
+                    # third: sound weakenings of the query (fewer hypotheses); only unsat is conclusive
+                    for label, vt in variants.get(i, []):
+                        with open(path, "w") as f:
+                            f.write(vt)
+                        o3, d3 = await _run_proc([Z3BIN, f"-T:{int(timeout)}", path], timeout)
+                        ob.seconds = round(ob.seconds + d3, 3)
+                        if o3.split("\n", 1)[0].strip() == "unsat":
+                            ob.verdict, ob.solver, ob.detail = "discharged", f"z3-5.1[{label}]", ""
+                            break
+            dump = os.environ.get("VERIF_DUMP")
+            if dump and ob.verdict != "discharged":
+                os.makedirs(dump, exist_ok=True)
+                with open(os.path.join(dump, f"q{i}_{ob.verdict}.smt2"), "w") as f:
+                    f.write(f"; {ob.name}\n; {ob.text}\n" + txt)
             try:
                 os.unlink(path)
             except OSError:
@@ -165,9 +243,17 @@ def solve_all(obligations, timeout=10, jobs=14):
         except Exception as e:
             texts.append(None)
             ob.verdict, ob.detail, ob.solver, ob.seconds = "undecided", f"smt2 print failed: {e}", "-", 0.0
+    variants = {}
+    for i, ob in enumerate(obligations):
+        if getattr(ob, "expect", None) == "sat" or texts[i] is None:
+            continue
+        try:
+            variants[i] = [(lab, smt2_of(h, ob.goal)) for lab, h in sliced_variants(ob)]
+        except Exception:
+            variants[i] = []
     tmpdir = tempfile.mkdtemp(prefix="pyvc_", dir=os.environ.get("VERIF_TMP"))
     try:
-        asyncio.run(_solve_async(list(zip(obligations, texts)), timeout, jobs, tmpdir))
+        asyncio.run(_solve_async(list(zip(obligations, texts)), timeout, jobs, tmpdir, variants))
     finally:
         shutil.rmtree(tmpdir, ignore_errors=True)
     for ob in obligations:
